@@ -13,6 +13,7 @@ THEOREMS = [
     ("EG.props.C14", "C14_offline_not_live"),
     ("EG.props.C14", "C14_reconnect_restores"),
     ("EG.props.C14", "C14_split_topic_spec"),
+    ("EG.props.C14", "C14_length_never_malformed"),
     ("EG.props.C14", "C14_matches_dec_correct"),
     ("EG.props.C14", "C14_insert_spec"),
     ("EG.props.C14", "C14_remove_spec"),
@@ -25,10 +26,10 @@ THEOREMS = [
 ]
 HARNESSES = [
     dict(name="topic", pkg="pkg/object/mqttproxy", files=["harness/mqttproxy/zz_verif_c14_test.go", "harness/mqttproxy/zz_verif_c14_conn_test.go"],
-         run="TestVerifC14", groups=["hist", "wild", "conn", "split"], timeout=900),
+         run="TestVerifC14", groups=["hist", "wild", "long", "conn", "split"], timeout=900),
 ]
-GROUPS = {"hist": "check_hist", "wild": "check_hist", "conn": "check_hist", "split": "check_split"}
-EXPLAIN = {"hist": "explain_hist", "wild": "explain_hist", "conn": "explain_hist", "split": "explain_split"}
+GROUPS = {"hist": "check_hist", "wild": "check_hist", "long": "check_hist", "conn": "check_hist", "split": "check_split"}
+EXPLAIN = {"hist": "explain_hist", "wild": "explain_hist", "long": "explain_hist", "conn": "explain_hist", "split": "explain_split"}
 CASES = {"quick": 1500, "thorough": 30000}
 RULE = ("cases: histories of CONNECT(clean|persistent)/SUBSCRIBE/UNSUBSCRIBE/connection-end by 1-4 clients over filters from "
         "levels {a,b,'',+,#} incl. malformed ones, interleaved with findSubscribers on derived near-miss topics; LRU level cache "
@@ -36,7 +37,9 @@ RULE = ("cases: histories of CONNECT(clean|persistent)/SUBSCRIBE/UNSUBSCRIBE/con
         "containing wildcard characters, correspondence only); group conn: raw MQTT peers on Broker.handleConn over net.Pipe with "
         "persistent sessions, drop + reconnect(cleanSession=false) restoring the stored session, take-over of a connected id, "
         "connection ends by DISCONNECT / socket close / Broker.deleteSession first, multi-filter UNSUBSCRIBE with never-subscribed "
-        "filters before subscribed ones; group split = splitTopic on single strings. non-trivial = some findSubscribers returned a "
+        "filters before subscribed ones; group long = topic names and filters of exactly 65535 / 65534 bytes (one huge level, dev/<pad>/state, tens of thousands of "
+        "1-byte or empty levels; compact {s*n} notation expanded inside Coq, model and spec run on the real string); "
+        "group split = splitTopic on single strings. non-trivial = some findSubscribers returned a "
         "subscriber resp. non-empty string list (split); classes add: rejected-SUBSCRIBE(+1) connection-end(+2) >=2 subscribers(+4) "
         "wildcard-topic-name(+8) and 16*(persistent(1) persistent-reconnect(2) take-over(4) broker-closed-first(8)); "
         "distinct = distinct (group, input) hashes among non-trivial cases")
@@ -77,20 +80,41 @@ def coq_header(kf_open):
             "Definition explain_hist := explain_hist_with pinned.\n" % B("q_abort_on_malformed" in flags))
 
 
+import re
+_MACRO = re.compile(r"\{([^{}]*)\*(\d+)\}")
+_X = [False]
+
+
+def S_(s):
+    """string of a case; in compact cases {s*n} stands for s repeated n times and is
+    expanded INSIDE Coq by Topic.sx (the model and the spec run on the real long string)"""
+    if not _X[0] or "{" not in s:
+        return S(s)
+    segs, pos = [], 0
+    for m in _MACRO.finditer(s):
+        if m.start() > pos:
+            segs.append((s[pos:m.start()], 1))
+        segs.append((m.group(1), int(m.group(2))))
+        pos = m.end()
+    if pos < len(s):
+        segs.append((s[pos:], 1))
+    return "(sx %s)" % L([T(S(a), N(n)) for a, n in segs])
+
+
 def _op(o):
     k = o["k"]
     if k == "sub":
         fs, qs = o.get("f") or [], o.get("q") or []
         qs = list(qs) + [0] * (len(fs) - len(qs))
-        return C("TOp", C("Sub", S(o["c"]), L([T(S(f), N(q)) for f, q in zip(fs, qs)])))
+        return C("TOp", C("Sub", S(o["c"]), L([T(S_(f), N(q)) for f, q in zip(fs, qs)])))
     if k == "unsub":
-        return C("TOp", C("Unsub", S(o["c"]), L([S(f) for f in o.get("f") or []])))
+        return C("TOp", C("Unsub", S(o["c"]), L([S_(f) for f in o.get("f") or []])))
     if k == "disc":
         return C("TOp", C("Disc", S(o["c"])))
     if k == "conn":
         return C("TOp", C("Conn", S(o["c"]), B(o.get("clean", False))))
     if k == "find":
-        return C("TFind", S(o.get("t") or ""))
+        return C("TFind", S_(o.get("t") or ""))
     raise ValueError(k)
 
 
@@ -137,8 +161,9 @@ def _tag(ops):
 
 def encode(c):
     i, o = c["in"], c["obs"]
-    if c["grp"] in ("hist", "wild", "conn"):
+    if c["grp"] in ("hist", "wild", "long", "conn"):
         ops = i.get("ops") or []
+        _X[0] = bool(i.get("x"))
         return Rec(h_ops=L([_op(x) for x in ops]), h_obs=L([_obs(x) for x in o.get("outs") or []]), h_tag=N(_tag(ops)))
     if c["grp"] == "split":
         return Rec(s_in=L([S(s) for s in i.get("s") or []]),
